@@ -34,7 +34,7 @@ var plainFuncs = map[string]bool{"munmap": true, "memmap": true}
 var osShim = map[string]string{
 	"OpenFile": "OsOpenFile", "Open": "OsOpen", "Create": "OsCreate", "ReadFile": "OsReadFile",
 	"WriteFile": "OsWriteFile", "MkdirAll": "OsMkdirAll", "Mkdir": "OsMkdir", "Stat": "OsStat", "Lstat": "OsLstat",
-	"Remove": "OsRemove", "RemoveAll": "OsRemoveAll", "Rename": "OsRename", "ReadDir": "OsReadDir", "CreateTemp": "OsCreateTemp", "Exit": "OsExit",
+	"Remove": "OsRemove", "RemoveAll": "OsRemoveAll", "Rename": "OsRename", "ReadDir": "OsReadDir", "CreateTemp": "OsCreateTemp", "Exit": "OsExit", "Link": "OsLink",
 }
 var syscallShim = map[string]string{"Mmap": "SyscallMmap", "Munmap": "SyscallMunmap"}
 var httpShim = map[string]string{"Post": "HTTPPost"}
